@@ -168,7 +168,9 @@ class Task:
             self.finish()
         except OSError:
             self.close_on_finish = True
-            if self.channel.adj.log_socket_errors:
+            # an OSError raised before any output comes from the application,
+            # not from the socket: the client is owed an error response
+            if self.channel.adj.log_socket_errors or not self.wrote_header:
                 raise
 
     @property
